@@ -392,6 +392,12 @@ func c07Kept(c *core.Ctx, o *core.Outcome) *core.Outcome {
 	wk.UseBackend()
 	defer wk.Close()
 	K := wk.NewSession("sess", true)
+	// ... and the gateway may have two workers, each with a kept persister (and store handle) of its own for
+	// the session: what one saved the other has to see
+	twoWorkers := t.Chance(1, 2)
+	if twoWorkers {
+		o.Probes["kept_persister_twin_run_with_two_workers"]++
+	}
 	nreq := t.Range(4, 18)
 	okReq, unsaved := 0, 0
 	for i := 0; i < nreq; i++ {
@@ -408,6 +414,9 @@ func c07Kept(c *core.Ctx, o *core.Outcome) *core.Outcome {
 			P.FailTemplateThisRequest, K.FailTemplateThisRequest = true, true
 		} else if t.Chance(1, 16) {
 			P.FailWriteThisRequest, K.FailWriteThisRequest = true, true
+		}
+		if twoWorkers {
+			K.Worker = t.Int(2)
 		}
 		t.End()
 		sp := P.Request(in, true)
